@@ -10,7 +10,8 @@ kernprof.ContextualProfile; the observations are compared inside Coq with the wr
 model (mismatch) and with the unwrapped run (spec_fail = the property).  Descriptors,
 metadata, registration and profiler nesting are checked differentially on generated real
 objects (harness/drivers/c03_objects.py); decorated callables under the real kernprof.main with its
-interval timer (kernprof -i) by harness/drivers/c03_kern.py."""
+interval timer (kernprof -i) by harness/drivers/c03_kern.py.  Stream `family`: function objects made by one `def`
+executed repeatedly (shared code object, different defaults / attributes / names), all decorated by one profiler."""
 import itertools
 import json
 
